@@ -2,6 +2,7 @@ package vegeta_test
 
 import (
 	"encoding/base64"
+	"encoding/json"
 	"fmt"
 	"io"
 	"math"
@@ -479,6 +480,7 @@ func init() { vh.RegisterReplay("C15.concurrent", vh.Replayer(runC15)) }
 type c15Tail struct {
 	Targets    int
 	Goroutines int
+	Format     string `json:",omitempty"` // "" = http, "json": one object per line, the source fails inside an object
 	Tail       string // "longheader": the last target's header block holds a line of 70 KiB; "readerror": the source fails inside the last header block
 }
 
@@ -498,19 +500,32 @@ func (r *c15FailingReader) Read(p []byte) (int, error) {
 
 func runC15Tail(c c15Tail) error {
 	var doc strings.Builder
-	for i := 0; i < c.Targets; i++ {
-		fmt.Fprintf(&doc, "%s http://c15.test/t/%d\nX-H0: v0-%d\n\n", c15Letters(i), i, i)
-	}
-	doc.WriteString("GET http://c15.test/tail\nX-A: 1\n")
 	var src io.Reader
-	if c.Tail == "longheader" {
-		doc.WriteString("X-Long: " + strings.Repeat("x", 70000) + "\nX-B: 2\n\n")
-		src = strings.NewReader(doc.String())
+	var tr vegeta.Targeter
+	if c.Format == "json" {
+		for i := 0; i < c.Targets; i++ {
+			fmt.Fprintf(&doc, `{"method":%q,"url":"http://c15.test/t/%d","header":{"X-H0":["v0-%d"]}}`+"\n", c15Letters(i), i, i)
+		}
+		doc.WriteString(`{"method":"GET","url":"http://c15.test/tail","header":{"X-A":["1"],`)
+		if c.Tail == "longheader" {
+			doc.WriteString(`"X-Long":["` + strings.Repeat("x", 70000) + `"]}}` + "\n" + `{"method":"GET",`)
+		}
+		src = &c15FailingReader{data: []byte(doc.String())} // the source fails here, inside an object
+		tr = vegeta.NewJSONTargeter(src, nil, nil)
 	} else {
-		doc.WriteString("X-B: 2\nX-C") // the source fails here, inside the header block
-		src = &c15FailingReader{data: []byte(doc.String())}
+		for i := 0; i < c.Targets; i++ {
+			fmt.Fprintf(&doc, "%s http://c15.test/t/%d\nX-H0: v0-%d\n\n", c15Letters(i), i, i)
+		}
+		doc.WriteString("GET http://c15.test/tail\nX-A: 1\n")
+		if c.Tail == "longheader" {
+			doc.WriteString("X-Long: " + strings.Repeat("x", 70000) + "\nX-B: 2\n\n")
+			src = strings.NewReader(doc.String())
+		} else {
+			doc.WriteString("X-B: 2\nX-C") // the source fails here, inside the header block
+			src = &c15FailingReader{data: []byte(doc.String())}
+		}
+		tr = vegeta.NewHTTPTargeter(src, nil, nil)
 	}
-	tr := vegeta.NewHTTPTargeter(src, nil, nil)
 	seen := make([]int32, c.Targets)
 	var wg sync.WaitGroup
 	var mu sync.Mutex
@@ -542,7 +557,7 @@ func runC15Tail(c c15Tail) error {
 	}
 	done := make(chan struct{})
 	go func() { wg.Wait(); close(done) }()
-	what := fmt.Sprintf("http input of %d targets followed by one whose header block ends in an error (%s), %d goroutines x %d calls", c.Targets, c.Tail, c.Goroutines, c.Targets/c.Goroutines+4)
+	what := fmt.Sprintf(c.Format+" input of %d targets followed by one whose header block ends in an error (%s), %d goroutines x %d calls", c.Targets, c.Tail, c.Goroutines, c.Targets/c.Goroutines+4)
 	select {
 	case <-done:
 	case <-time.After(30 * time.Second):
@@ -558,8 +573,9 @@ func runC15Tail(c c15Tail) error {
 
 func TestC15ErrorTail(t *testing.T) {
 	vh.Check(t, 10, 300, func(t *rapid.T) {
-		c := c15Tail{Targets: rapid.IntRange(0, 60).Draw(t, "targets"), Goroutines: rapid.SampledFrom([]int{1, 2, 4, 8}).Draw(t, "g"), Tail: rapid.SampledFrom([]string{"longheader", "readerror"}).Draw(t, "tail")}
-		vh.Case("C15.errortail", fmt.Sprintf("%+v", c), c.Goroutines >= 2, c.Tail)
+		c := c15Tail{Targets: rapid.IntRange(0, 60).Draw(t, "targets"), Goroutines: rapid.SampledFrom([]int{1, 2, 4, 8}).Draw(t, "g"), Tail: rapid.SampledFrom([]string{"longheader", "readerror"}).Draw(t, "tail"),
+			Format: rapid.SampledFrom([]string{"", "json"}).Draw(t, "format")}
+		vh.Case("C15.errortail", fmt.Sprintf("%+v", c), c.Goroutines >= 2, c.Tail, "format:"+c.Format)
 		vh.Sample("C15.errortail", c.Goroutines >= 2, c)
 		if err := runC15Tail(c); err != nil {
 			vh.Fail(t, "C15", "C15.errortail", c, err)
@@ -568,3 +584,137 @@ func TestC15ErrorTail(t *testing.T) {
 }
 
 func init() { vh.RegisterReplay("C15.errortail", vh.Replayer(runC15Tail)) }
+
+// ---- body files that cannot be read: one draw fails, every other target is delivered intact
+
+type c15BadBody struct {
+	Files      int   // readable body files (contents differ)
+	Refs       []int // per target: -1 no body line, 0..Files-1 that file, Files a file that does not exist, Files+1 a directory
+	Goroutines int
+}
+
+func runC15BadBody(c c15BadBody) error {
+	if c.Files < 0 || c.Files > 16 || len(c.Refs) > 5000 || c.Goroutines < 1 || c.Goroutines > 64 {
+		return fmt.Errorf("bad case")
+	}
+	dir, err := os.MkdirTemp("", "c15bad")
+	if err != nil {
+		return err
+	}
+	defer os.RemoveAll(dir)
+	content := func(f int) string { return fmt.Sprintf("body of file %d %s", f, strings.Repeat("*", f*7)) }
+	for f := 0; f < c.Files; f++ {
+		if err := os.WriteFile(filepath.Join(dir, fmt.Sprintf("b%d", f)), []byte(content(f)), 0o644); err != nil {
+			return err
+		}
+	}
+	if err := os.Mkdir(filepath.Join(dir, "adir"), 0o755); err != nil {
+		return err
+	}
+	var doc strings.Builder
+	unreadable := 0
+	for i, r := range c.Refs {
+		fmt.Fprintf(&doc, "%s http://c15.test/t/%d\nX-I: %d\n", c15Letters(i), i, i)
+		switch {
+		case r < 0:
+		case r < c.Files:
+			fmt.Fprintf(&doc, "@%s\n", filepath.Join(dir, fmt.Sprintf("b%d", r)))
+		case r == c.Files:
+			fmt.Fprintf(&doc, "@%s\n", filepath.Join(dir, "missing"))
+			unreadable++
+		default:
+			fmt.Fprintf(&doc, "@%s\n", filepath.Join(dir, "adir"))
+			unreadable++
+		}
+		doc.WriteString("\n")
+	}
+	tr := vegeta.NewHTTPTargeter(strings.NewReader(doc.String()), nil, nil)
+	var (
+		mu       sync.Mutex
+		seen     = make([]int, len(c.Refs))
+		failures int
+		firstErr error
+		wg       sync.WaitGroup
+	)
+	for g := 0; g < c.Goroutines; g++ {
+		wg.Add(1)
+		go func() {
+			defer wg.Done()
+			for n := 0; n < len(c.Refs)+2; n++ {
+				var t vegeta.Target
+				err := tr(&t)
+				if err == vegeta.ErrNoTargets {
+					return
+				}
+				mu.Lock()
+				if err != nil {
+					if failures++; !strings.Contains(err.Error(), "bad body") && firstErr == nil {
+						firstErr = fmt.Errorf("a draw failed with %v", err)
+					}
+					mu.Unlock()
+					continue
+				}
+				var idx int
+				if _, e := fmt.Sscanf(t.URL, "http://c15.test/t/%d", &idx); e != nil || idx < 0 || idx >= len(c.Refs) {
+					if firstErr == nil {
+						firstErr = fmt.Errorf("a target with URL %q was delivered", t.URL)
+					}
+					mu.Unlock()
+					continue
+				}
+				seen[idx]++
+				want := ""
+				if r := c.Refs[idx]; r >= 0 && r < c.Files {
+					want = content(r)
+				} else if r >= c.Files && firstErr == nil {
+					firstErr = fmt.Errorf("target %d, whose body file cannot be read, was delivered (body %q)", idx, t.Body)
+				}
+				if (string(t.Body) != want || t.Method != c15Letters(idx) || t.Header.Get("X-I") != fmt.Sprint(idx)) && firstErr == nil {
+					firstErr = fmt.Errorf("target %d (body reference %d of %v) was delivered with method %q, X-I %q and body %q, want body %q", idx, c.Refs[idx], c.Refs, t.Method, t.Header.Get("X-I"), t.Body, want)
+				}
+				mu.Unlock()
+			}
+		}()
+	}
+	wg.Wait()
+	if firstErr != nil {
+		return firstErr
+	}
+	for i, n := range seen {
+		if want := 1; c.Refs[i] >= c.Files {
+			if n != 0 {
+				return fmt.Errorf("target %d (unreadable body) delivered %d times", i, n)
+			}
+		} else if n != want {
+			return fmt.Errorf("target %d was delivered %d times (body references %v, %d goroutines)", i, n, c.Refs, c.Goroutines)
+		}
+	}
+	if failures != unreadable {
+		return fmt.Errorf("%d draws failed, the input has %d targets whose body file cannot be read (%v)", failures, unreadable, c.Refs)
+	}
+	return nil
+}
+
+func TestC15BadBody(t *testing.T) {
+	vh.Check(t, 60, 3000, func(t *rapid.T) {
+		c := c15BadBody{Files: rapid.IntRange(1, 3).Draw(t, "files"), Goroutines: rapid.SampledFrom([]int{1, 1, 2, 4, 16}).Draw(t, "g")}
+		c.Refs = rapid.SliceOfN(rapid.IntRange(-1, c.Files+1), 1, 40).Draw(t, "refs")
+		bad := 0
+		for _, r := range c.Refs {
+			if r >= c.Files {
+				bad++
+			}
+		}
+		nt := bad > 0 && bad < len(c.Refs)
+		sig, _ := json.Marshal(c)
+		vh.Case("C15.badbody", string(sig), nt, fmt.Sprintf("goroutines=%d", c.Goroutines))
+		vh.Sample("C15.badbody", nt, c)
+		var err error
+		vh.Guard("C15", "C15.badbody", c, func() { err = runC15BadBody(c) })
+		if err != nil {
+			vh.Fail(t, "C15", "C15.badbody", c, err)
+		}
+	})
+}
+
+func init() { vh.RegisterReplay("C15.badbody", vh.Replayer(runC15BadBody)) }
